@@ -105,7 +105,8 @@ func (o *obj) prefix() string {
 type expRec struct {
 	setCmd, setKey, id string
 	setOrd             int
-	delCmd, expKey     string
+	delCmd, expKey     string // expKey: key name when the expiry was observed
+	altKey             string // key name at SET time: the sweeper may have fired before a RENAME the client sent in between
 	scn                string
 }
 
@@ -315,11 +316,11 @@ func (q *scn) markExpired(o *obj, rd time.Time) {
 	q.e.ctx.Count("expiries_observed", 1)
 	switch o.kind {
 	case "obj":
-		q.exps = append(q.exps, expRec{"set", o.setKey, o.id, o.setOrd, "del", o.key, q.name})
+		q.exps = append(q.exps, expRec{"set", o.setKey, o.id, o.setOrd, "del", o.key, o.setKey, q.name})
 	case "chan":
-		q.exps = append(q.exps, expRec{"setchan", o.id, "", o.setOrd, "delchan", o.id, q.name})
+		q.exps = append(q.exps, expRec{"setchan", o.id, "", o.setOrd, "delchan", o.id, o.id, q.name})
 	case "hook":
-		q.exps = append(q.exps, expRec{"sethook", o.id, "", o.setOrd, "delhook", o.id, q.name})
+		q.exps = append(q.exps, expRec{"sethook", o.id, "", o.setOrd, "delhook", o.id, o.id, q.name})
 	}
 }
 
